@@ -25,6 +25,7 @@ CLAIM = (
     "on the code paths that do not upsample) for sub-pixel shifts; shifting the second image by the result reproduces the first; the returned aligned image "
     "equals an independent Fourier translation; identical images give zero; swapping the images negates the result; inputs are neither modified nor aliased by the result; and on REUSED buffers (the same array/tensor objects refilled in place, every ordered pair/triple of cases) each call returns the shift of the current contents."
     " Further enumerated dimensions: legal spellings / dtypes / memory layouts judged against the canonical call, refills that do not bump the tensor version (from_numpy buffers, .data), image scale 1e-30..1e+30 (float64) and 1e-8..1e+8 (float32) judged by scale invariance at generic (tie-free, guarded) shifts, torch process-wide modes (default dtype float64, no_grad, inference_mode, thread count), and re-entrant calls from an argument's __array__."
+    " Further dimensions: the peak on the rim of the max_shift window (radii 0.5 to 1.5 px beyond the applied shift, shifts along the axes, the diagonal and at half the size) and call histories on short-lived arguments whose addresses the allocator hands out again (observed reuse is counted and required)."
 )
 NOTE = (
     "Trusted: the exact Fourier-shift ground truth (Nyquist-free, band-limited images with a checked unique correlation peak) and the "
